@@ -1090,13 +1090,9 @@ func (ex *Exec) checkFrame(env *Env, pos token.Pos) {
 					whole[x.Name+"len"] = true
 				}
 			case *SSel:
-				if id, ok := x.X.(*SIdent); ok {
-					if tn := ex.V.lookupType(id.Name, ex.pkg); tn != nil {
-						if _, isParam := ex.params[id.Name]; !isParam {
-							whole[heapFieldName(tn, x.Name)] = true
-							continue
-						}
-					}
+				if tn := ex.V.typeOfSpecExpr(x.X, ex.pkg, func(n string) bool { _, ok := ex.params[n]; return ok }); tn != nil {
+					whole[heapFieldName(tn, x.Name)] = true
+					continue
 				}
 				obj := ex.ev(x.X, penv)
 				_, named, _ := derefStruct(obj.Ty)
